@@ -3,6 +3,7 @@ import Pangaea.Drv.C11
 import Pangaea.Drv.C10
 import Pangaea.Drv.C15
 import Pangaea.Drv.C04
+import Pangaea.Drv.C02
 
 def dispatch (line : String) : String :=
   let toks := (line.trimAscii.toString.splitOn " ").filter (· ≠ "")
@@ -12,6 +13,7 @@ def dispatch (line : String) : String :=
     | "C10" :: rest => Pangaea.Drv.C10.handle rest
     | "C15" :: rest => Pangaea.Drv.C15.handle rest
     | "C04" :: rest => Pangaea.Drv.C04.handle rest
+    | "C02" :: rest => Pangaea.Drv.C02.handle rest
     | _ => ("bad-op", "bad-op")
   r.1 ++ "\t" ++ r.2
 
